@@ -473,6 +473,9 @@ var genDoc = rapid.Custom(func(t *rapid.T) string {
 		}
 	}
 	explicit := rapid.IntRange(0, 3).Draw(t, "explicit") // 0: bare fragment, 1: body only, 2: html+body, 3: html+head+body
+	if rapid.IntRange(0, 5).Draw(t, "leadComment") == 0 {
+		sb.WriteString("<!-- generated -->\n")
+	}
 	if explicit >= 2 {
 		sb.WriteString(`<html lang="en">`)
 	}
@@ -510,8 +513,22 @@ var genDoc = rapid.Custom(func(t *rapid.T) string {
 	}
 	if explicit >= 1 && rapid.IntRange(0, 3).Draw(t, "closebody") > 0 {
 		sb.WriteString("</body>")
+		// comments and text after the end tags: the parser attaches a comment after </body> to
+		// <html> and one after </html> to the document, not to the body
+		trailer := func(label string) {
+			switch rapid.IntRange(0, 5).Draw(t, label) {
+			case 0:
+				sb.WriteString("<!-- rendered in 3ms -->")
+			case 1:
+				sb.WriteString("\n<!-- cache: miss -->\n")
+			case 2:
+				sb.WriteString("\n  ")
+			}
+		}
+		trailer("afterBody")
 		if explicit >= 2 {
 			sb.WriteString("</html>")
+			trailer("afterHTML")
 		}
 		if rapid.Bool().Draw(t, "trailingnl") {
 			sb.WriteString("\n")
